@@ -177,10 +177,14 @@ fn wrap(link: u8, ip: &[u8]) -> Vec<u8> {
         }
         // 802.1Q tagged frames: no parser or filter of the repository unwraps them - if one of them starts to, all must
         10 => pkt::frame(Link::Vlan(0x8100), ip),
-        _ => pkt::frame(Link::Vlan(0x88a8), ip),
+        11 => pkt::frame(Link::Vlan(0x88a8), ip),
+        // near misses of the one NULL/loopback header the analyzers accept (1e 00 ..): nobody reads them - if one copy of the
+        // parser starts to, its filter must too
+        12 => [vec![0x1e, 0x01, 0, 0], ip.to_vec()].concat(),
+        _ => [vec![0x1f, 0x00, 0, 0], ip.to_vec()].concat(),
     }
 }
-const LINKS: [&str; 12] = ["raw", "ethernet", "null-1e", "null-02", "null-1c", "ethernet-macs-like-ipv4-header", "ethernet-macs-like-ipv6-header", "ethernet-macs-like-loopback-1e-ipv4", "ethernet-macs-like-loopback-1e-ipv6", "ethernet-macs-like-loopback-02", "vlan-8100", "vlan-88a8"];
+const LINKS: [&str; 14] = ["raw", "ethernet", "null-1e", "null-02", "null-1c", "ethernet-macs-like-ipv4-header", "ethernet-macs-like-ipv6-header", "ethernet-macs-like-loopback-1e-ipv4", "ethernet-macs-like-loopback-1e-ipv6", "ethernet-macs-like-loopback-02", "vlan-8100", "vlan-88a8", "null-near-miss-1e-01", "null-near-miss-1f-00"];
 
 pub fn traces() -> Vec<Trace> {
     let mut v = vec![];
@@ -192,7 +196,7 @@ pub fn traces() -> Vec<Trace> {
             if v6 && ihl != 5 {
                 continue;
             }
-            for link in 0..12u8 {
+            for link in 0..14u8 {
                 for (cport, sport) in [(40000u16, 80u16), (40005, 443)] {
                     let mk = |from_client: bool, flags: u8, seq: u32, payload: &[u8]| -> Vec<u8> {
                         let (src, sp, dst, dp) = if from_client { (1u8, cport, 2u8, sport) } else { (2, sport, 1, cport) };
